@@ -249,6 +249,24 @@ where
     }
 }
 
+impl<T> FastFixedIn<T>
+where
+    T: Sample,
+{
+    /// Upper limit for the number of frames the next call can produce.
+    /// The read position moves from `last_index` to the end index used by `process_into_buffer`
+    /// in steps that are never smaller than the smallest of the current and the target step.
+    fn calc_needed_len(&self) -> usize {
+        let t_ratio = 1.0 / self.resample_ratio;
+        let t_ratio_end = 1.0 / self.target_ratio;
+        let end_idx = self.chunk_size as isize
+            - (POLYNOMIAL_LEN_I + 1)
+            - t_ratio.max(t_ratio_end).ceil() as isize;
+        let distance = (end_idx as f64 - self.last_index).max(0.0);
+        (distance / t_ratio.min(t_ratio_end)) as usize + 2
+    }
+}
+
 impl<T> Resampler<T> for FastFixedIn<T>
 where
     T: Sample,
@@ -271,10 +289,7 @@ where
             update_mask_from_buffers(&mut self.channel_mask);
         };
 
-        // Set length to chunksize*ratio plus a safety margin of 10 elements.
-        let needed_len = (self.chunk_size as f64
-            * (0.5 * self.resample_ratio + 0.5 * self.target_ratio)
-            + 10.0) as usize;
+        let needed_len = self.calc_needed_len();
 
         validate_buffers(
             wave_in,
@@ -459,14 +474,15 @@ where
     }
 
     fn output_frames_max(&self) -> usize {
-        // Set length to chunksize*ratio plus a safety margin of 10 elements.
-        (self.chunk_size as f64 * self.resample_ratio_original * self.max_relative_ratio + 10.0)
-            as usize
+        // The longest distance to cover, a full chunk plus what a chunk at the lowest ratio
+        // can leave unprocessed, in the smallest steps.
+        let max_distance = self.chunk_size as f64
+            + (self.max_relative_ratio / self.resample_ratio_original).ceil();
+        (max_distance * self.resample_ratio_original * self.max_relative_ratio) as usize + 3
     }
 
     fn output_frames_next(&self) -> usize {
-        (self.chunk_size as f64 * (0.5 * self.resample_ratio + 0.5 * self.target_ratio) + 10.0)
-            as usize
+        self.calc_needed_len()
     }
 
     fn output_delay(&self) -> usize {
